@@ -38,30 +38,44 @@ from orquesta.specs import native as native_specs  # noqa: E402
 
 THEOREMS = [
     {"name": "C14_edges_sound", "strength": "F",
-     "text": "every edge of compose sp rt fuel = Val g is a (task, transition index, target) triple of the "
+     "text": "compose sp rt fuel = Val g -> every edge of g is a (task, transition index, target) triple of the "
              "definition with target <> retry, criteria = [when] or [], ref = index, both ends nodes of g"},
     {"name": "C14_edges_complete", "strength": "F",
-     "text": "every such triple of every node of g has its edge in g (all nodes have been dequeued)"},
-    {"name": "C14_edges_unique", "strength": "F",
-     "text": "edges are pairwise distinct on (src, dst, criteria, ref) and on (src, dst, key)"},
-    {"name": "C14_edge_keys_dense", "strength": "F",
-     "text": "the keys of the k parallel edges between two tasks are exactly 0..k-1"},
+     "text": "... -> every such triple of every node of g has its edge in g (all nodes have been dequeued)"},
     {"name": "C14_nodes_exact", "strength": "F",
-     "text": "t is a node of g <-> t is reachable from a start task through non-retry transitions; node "
-             "ids are duplicate free"},
+     "text": "... -> node ids are duplicate free and t is a node of g <-> t is reachable from a start task "
+             "through transitions other than the retry command"},
+    {"name": "C14_edges_unique", "strength": "F",
+     "text": "... -> edges are pairwise distinct on (src, dst, criteria, ref) and on (src, dst, key)"},
+    {"name": "C14_edge_keys_dense", "strength": "F",
+     "text": "... -> the keys of the k parallel edges between two tasks are exactly 0..k-1 in networkx order"},
     {"name": "C14_roots_exact", "strength": "F",
-     "text": "t in g_roots g <-> t is a declared task nothing transitions into (declared names unique)"},
+     "text": "... -> t in g_roots g <-> t is a declared task that no transition of the definition names"},
     {"name": "C14_attributes_exact", "strength": "F",
-     "text": "for every node: barrier = '*'/n exactly when join is declared (else null); retry = the retry "
-             "command policy if a transition does retry, else the declared retry spec, else null"},
-    {"name": "C14_serialize_roundtrip", "strength": "F",
-     "text": "for every graph with unique node ids whose edge sources are nodes: "
-             "g_serialize (g_deserialize (g_serialize g)) = g_serialize g, in particular keys are kept"},
-    {"name": "(tested, not proved) termination of the worklist; declaration-order independence; "
-             "deserialize(serialize(g)) = g for composed graphs; node order and splits attribute",
+     "text": "... -> every node: barrier = '*'/n exactly when join is declared (else null); retry = policy of the "
+             "last retry command among its transitions, else the declared retry spec, else null"},
+    {"name": "C14_retry_policy", "strength": "F",
+     "text": "the expected retry policy is the fold over the transitions in declaration order (the name sort of "
+             "get_next_tasks is stable)"},
+    {"name": "C14_declaration_order", "strength": "F",
+     "text": "Permutation (wf_tasks sp1) (wf_tasks sp2) -> task names unique -> compose sp1 rt fuel = compose sp2 rt fuel"},
+    {"name": "C14_persist_edges", "strength": "F",
+     "text": "for every graph: deserialize(serialize g) has the same node list and exactly the edges of g whose "
+             "source is a node, with the same key, ref and criteria"},
+    {"name": "C14_serialize_roundtrip / _composed", "strength": "F",
+     "text": "node ids unique (in particular g composed) -> serialize(deserialize(serialize g)) = serialize g"},
+    {"name": "C14_in_cycle_total", "strength": "F",
+     "text": "task names unique -> the tasks.in_cycle search never exhausts its fuel (spec_size + 1 dequeues)"},
+    {"name": "C14_only_fuel_error", "strength": "F",
+     "text": "task names unique, every transition target an engine command or a declared task -> the only failure "
+             "of compose is the worklist's fuel (no KeyError, no in_cycle fuel error)"},
+    {"name": "C14_fuel_irrelevant", "strength": "F",
+     "text": "compose sp rt f1 = Val g1 -> compose sp rt f2 = Val g2 -> g1 = g2"},
+    {"name": "(tested, not proved) termination of the worklist; deserialize(serialize g) = g and equal "
+             "get_next_transitions for composed graphs; node order and the splits attribute",
      "strength": "T",
-     "text": "theorems are conditional on compose returning Val (fuel sufficed); these clauses are checked on "
-             "every generated definition against the real composer"},
+     "text": "the theorems about compose are conditional on compose returning Val (fuel sufficed; no termination "
+             "proof); these clauses are checked on every generated definition against the real composer"},
 ]
 TRUSTED_BASE = [
     "Coq 8.16.1 kernel via coqc (full .vo build); vm_compute in the non-vacuity examples and in the generated "
@@ -86,6 +100,7 @@ ASSUMPTIONS = [
 
 COQ = os.path.join(engine.VERIF, "coq")
 FUEL = "(60 * 50)"     # 3000 dequeues; written as a product to keep nat literals small
+BIG_FUEL = "(600 * 50)"
 NAME_POOL = ["a", "aa", "ab", "b", "B", "A1", "_c", "a_", "z", "t1", "t10", "t2", "m", "Z9", "k_k", "q"]
 COMMANDS = ["continue", "noop", "fail", "retry"]
 WHENS = [None, "<% succeeded() %>", "<% failed() %>", "<% ctx().x > 0 %>", "{{ ctx().x == 1 }}",
@@ -660,7 +675,7 @@ def nontrivial(r):
 
 def run(ctx):
     tier, seed = ctx["tier"], ctx["seed"]
-    n = 490 if tier == "quick" else 6300
+    n = 420 if tier == "quick" else 11200
     all_perms_upto = 3 if tier == "quick" else 4
     base = (seed * 1000003 + zlib.crc32(b"C14")) % (2 ** 31)
     jobs = [(base + i, FAMILY_ORDER[i % len(FAMILY_ORDER)], all_perms_upto) for i in range(n)]
@@ -688,6 +703,12 @@ def run(ctx):
         size = 350
         chunks = [ok[i:i + size] for i in range(0, len(ok), size)]
         answers = run_coq([[r["coq"] for r in ch] for ch in chunks])
+        starved = [(ci, ri) for ci, ans in enumerate(answers) for ri, a in enumerate(ans) if a[0] == 1]
+        if starved:     # the model needs more than FUEL dequeues: ask again with a tenfold bound
+            again = run_coq([[chunks[ci][ri]["coq"].replace(FUEL, BIG_FUEL)] for ci, ri in starved])
+            for (ci, ri), a in zip(starved, again):
+                answers[ci][ri] = a[0]
+            stats["refuelled"] = len(starved)
         for ch, ans in zip(chunks, answers):
             for r, a in zip(ch, ans):
                 out["traces_validated"] += 1
